@@ -86,6 +86,12 @@ def analyse_body(mir, body):
                     tainted[t.dst.local] = org
                     changed = True
                 continue
+            # `Vec::from_iter(&set)` / `Vec::from(set)`: the container itself is handed to an ordered collection
+            if name in ("from_iter", "from") and a0 is not None and a0.place is not None and HASH.search(t.argt[0]) and ORDERED_TARGETS.match(t.dty):
+                if t.dst.local not in tainted:
+                    tainted[t.dst.local] = origin_of(body, a0.place, t.argt[0])
+                    changed = True
+                continue
             tainted_args = [a for a in t.args if a.place is not None and a.place.local in tainted]
             if not tainted_args:
                 continue
@@ -122,6 +128,8 @@ def analyse_body(mir, body):
         name = t.callee.split("::")[-1]
         a0 = t.args[0] if t.args else None
         if a0 is not None and a0.place is not None and HASH.search(t.argt[0]) and name in SRC_METHODS and "std::collections::hash" not in t.argt[0].split("<")[0]:
+            continue
+        if name in ("from_iter", "from") and a0 is not None and a0.place is not None and HASH.search(t.argt[0]) and ORDERED_TARGETS.match(t.dty):
             continue
         tainted_args = [a for a in t.args if a.place is not None and a.place.local in tainted]
         if not tainted_args:
